@@ -103,10 +103,22 @@ fn collect_quoted(t: &T, out: &mut Vec<T>) { if let T::Quoted(s, p, o) = t { out
 impl Prop for C15 {
     type Case = DictCase;
     fn id(&self) -> &'static str { "C15" }
-    fn expected_counters(&self) -> Vec<&'static str> { vec!["probe.full_recheck_of_issued_ids", "probe.both_operands_hold_quoted_terms", "probe.operands_share_quads", "probe.identifiers_clash_between_operands", "fault.identifier_space_exhausted"] }
+    fn expected_counters(&self) -> Vec<&'static str> { vec!["probe.full_recheck_of_issued_ids", "probe.both_operands_hold_quoted_terms", "probe.operands_share_quads", "probe.identifiers_clash_between_operands", "probe.identical_dictionaries_different_quoted_stores", "fault.identifier_space_exhausted"] }
     fn budget(&self, tier: Tier) -> Budget { match tier { Tier::Quick => Budget { runs: 6000, wall_s: 60, recheck: 30 }, Tier::Thorough => Budget { runs: 300_000, wall_s: 1000, recheck: 100 } } }
     fn hash_seed(&self, c: &DictCase) -> u64 { c.hash_seed }
-    fn gen(&self, seed: u64, _i: u64, _t: Tier) -> DictCase { let mut r = Rng::sub(seed, "workload"); DictCase { hash_seed: Rng::sub(seed, "hash").next(), pad_b: r.below(7) as u32, a: gen_ops(&mut r), b: gen_ops(&mut r), exhaust: if r.chance(1, 8) { Some(r.below(4) as u32) } else { None } } }
+    fn gen(&self, seed: u64, _i: u64, _t: Tier) -> DictCase {
+        let mut r = Rng::sub(seed, "workload");
+        let mut c = DictCase { hash_seed: Rng::sub(seed, "hash").next(), pad_b: r.below(7) as u32, a: gen_ops(&mut r), b: gen_ops(&mut r), exhaust: if r.chance(1, 8) { Some(r.below(4) as u32) } else { None } };
+        // one case in six: both databases first encode the whole plain vocabulary in the same order, so their plain-term
+        // dictionaries stay identical while their quoted-triple stores (and quads) differ
+        if Rng::sub(seed, "swarm").chance(1, 6) {
+            let mut pro: Vec<DOp> = vec![];
+            for n in (0..8).chain(100..103).chain(150..151).chain(200..204) { pro.push(DOp::Encode(T::Iri(n))); }
+            for n in 0..5 { pro.push(DOp::Encode(T::Lit(n))); } for n in 0..3 { pro.push(DOp::Encode(T::Esc(n))); } for n in 0..6 { pro.push(DOp::DictEncode(format!("raw{}", n))); }
+            c.pad_b = 0; c.a = pro.iter().cloned().chain(c.a.into_iter()).collect(); c.b = pro.into_iter().chain(c.b.into_iter()).collect();
+        }
+        c
+    }
     fn exec(&self, c: &DictCase, ctx: &mut Ctx) -> Option<Violation> {
         let mut a = SparqlDatabase::new(); let mut b = SparqlDatabase::new();
         for i in 0..c.pad_b { b.encode_term_star(&format!("<http://e/pad{}>", i)); } // shift b's identifiers so they clash with a's
@@ -150,6 +162,7 @@ impl Prop for C15 {
         if !la.quads.is_empty() && !lb.quads.is_empty() { ctx.nontrivial(kolibrie_verif_rt::log::fnv(&format!("{:?}{:?}", c.a, c.b))); }
         if !la.quads.is_disjoint(&lb.quads) { ctx.hit("probe.operands_share_quads"); }
         if c.pad_b > 0 { ctx.hit("probe.identifiers_clash_between_operands"); }
+        if *a.dictionary.read().unwrap() == *b.dictionary.read().unwrap() && !qa.is_empty() && !qb.is_empty() && qa != qb { ctx.hit("probe.identical_dictionaries_different_quoted_stores"); }
         None
     }
     fn shrink(&self, c: &DictCase) -> Vec<DictCase> {
